@@ -1,1 +1,4 @@
 pub mod c03;
+pub mod c04;
+pub mod c15;
+pub mod valid;
